@@ -8,6 +8,8 @@ from vmon import boot, events
 from vmon.gen import patterns, planted
 from vmon.oracle import geometry as G
 
+from vmon.oracle.util import clone
+
 PROPERTY = "C03"
 RULE = ("For a base search (structure, pattern, atol) the match set of the real search is recorded and compared, after "
         "renaming, with the match sets recorded for transformed inputs: whole structure shifted by a random vector "
@@ -155,7 +157,7 @@ def metamorphic(ctx, st, S, P, atol, rng, w, dims, seed, n_hint=4, real=False):
     n = len(S)
     # 1. shift + wrap
     shift = rng.uniform(-1, 1, 3).dot(cell) * 1.7
-    S1 = S.copy()
+    S1 = clone(S)
     S1.positions = G.wrap(cell, np.asarray(S.positions, float) + shift)
     r, _, _, exc = run_search(S1, P, atol, seed=seed)
     if exc is not None:
@@ -172,7 +174,7 @@ def metamorphic(ctx, st, S, P, atol, rng, w, dims, seed, n_hint=4, real=False):
         compare(ctx, st, base, r, "permutation of the atom list", w, rename={j: int(perm[j]) for j in range(n)})
     # 3. rigid motion of the pattern
     R = G.random_rotation(rng)
-    P3 = P.copy()
+    P3 = clone(P)
     P3.positions = np.asarray(P.positions, float).dot(R.T) + rng.uniform(-5, 5, 3)
     r, _, _, exc = run_search(S, P3, atol, seed=seed)
     if exc is not None:
@@ -205,7 +207,7 @@ def metamorphic(ctx, st, S, P, atol, rng, w, dims, seed, n_hint=4, real=False):
         dims = None
     if dims is not None:
         a, b, c = dims
-        S6 = S.copy()
+        S6 = clone(S)
         S6.charges = np.arange(n, dtype=float)       # unit-cell identity of every atom survives replication
         big = S6.replicate((a, b, c))
         r, _, _, exc = run_search(big, P, atol, seed=seed)
